@@ -233,3 +233,6 @@ mod test {
         );
     }
 }
+
+#[cfg(kani)]
+pub(crate) mod verif_kani;
